@@ -280,7 +280,7 @@ func stateInAnnotationObjectKey(s *Scanner, c byte) state {
 	case s.boundary == 0 && c == ':':
 		return stateEndValue(s, c)
 
-	case c == s.boundary:
+	case s.boundary != 0 && c == s.boundary:
 		s.step = stateEndValue
 
 	case c == ' ':
